@@ -39,8 +39,34 @@ Layout(thr, pubs) ==
   LayoutD(<<GoodSig("o1")>>, 1000, <<"k1", "k2", "k3">>,
           <<StepD("s1", pubs, thr, <<Simple("ALLOW", <<"*">>)>>, <<Simple("ALLOW", <<"*">>)>>)>>, << >>)
 
-MCInit ==
-  /\ \E thr \in {2, 3}, n \in {2, 3}, who \in {"k1", "k2", "k3"}, kind \in Kinds7,
+\* two functionaries delegate the step to one co-signed sub-layout; each one's run lives in its own
+\* sub-directory and the second run may dissent: the summaries are what is compared
+CoSub == LayoutD(<<GoodSig("k1"), GoodSig("k2")>>, 1000, <<"k3">>,
+                 <<StepD("in1", <<"k3">>, 1, << >>, <<Simple("ALLOW", <<"*">>)>>)>>, << >>)
+CoInner(k, kind, side) ==
+  Entry(<<"s1." \o k>>, "in1", "k3",
+        LinkD("in1", <<GoodSig("k3")>>,
+              IF side = "mats" THEN Dissent(kind) ELSE Base,
+              IF side = "prods" THEN Dissent(kind) ELSE Base))
+CoFiled(who, kind, side) ==
+  Build(Layout(2, <<"k1", "k2">>), Own("o1"),
+        <<Entry(<< >>, "s1", "k1", CoSub), Entry(<< >>, "s1", "k2", CoSub),
+          CoInner("k1", IF who = "k1" THEN kind ELSE "none", side),
+          CoInner("k2", IF who = "k2" THEN kind ELSE "none", side)>>, {})
+\* ... and a plain link by one functionary against a sub-layout summary by the other
+Mixed(kind, side) ==
+  Build(Layout(2, <<"k1", "k2">>), Own("o1"),
+        <<Entry(<< >>, "s1", "k1", LinkD("s1", <<GoodSig("k1")>>, Base, Base)),
+          Entry(<< >>, "s1", "k2", [CoSub EXCEPT !.sigs = <<GoodSig("k2")>>]),
+          CoInner("k2", kind, side)>>, {})
+
+CoInit ==
+  \E who \in {"k1", "k2"}, kind \in Kinds7, side \in {"mats", "prods"}, mixed \in BOOLEAN :
+     /\ (mixed => who = "k2")
+     /\ scn = IF mixed THEN Mixed(kind, side) ELSE CoFiled(who, kind, side)
+
+PlainInit ==
+     \E thr \in {2, 3}, n \in {2, 3}, who \in {"k1", "k2", "k3"}, kind \in Kinds7,
         side \in {"mats", "prods"}, ign \in {"none", "unauth", "badsig"} :
        /\ (n = 2 => who # "k3")
        /\ (ign = "badsig" => n = 2)
@@ -50,7 +76,9 @@ MCInit ==
                          [i \in 1..n |-> Entry(<< >>, "s1", signers[i],
                                                LinkFor(signers[i], signers[i] = who, kind, side))]
                          \o Ignored(ign), {})
-  /\ VInitRest
+
+MCInit == (CoInit \/ PlainInit) /\ VInitRest
+
 
 MCSpec == MCInit /\ [][VNext]_vars
 Emit == EmitAs("C07")
